@@ -1,3 +1,171 @@
 package main
 
-func runMutantsImpl(c *Ctx, verif, repo string, extra map[string]any) {}
+import (
+	"encoding/json"
+	"fmt"
+	"os"
+	"os/exec"
+	"path/filepath"
+	"sort"
+	"strings"
+	"sync"
+)
+
+type mutantResult struct {
+	Patch    string `json:"patch"`
+	Kind     string `json:"kind"`   // breaking | equivalent
+	Result   string `json:"result"` // detected | MISSED | silent | FALSE-ALARM | not-applicable | does-not-load
+	Reported string `json:"reported,omitempty"`
+}
+
+// runMutantsImpl (thorough tier): applies every stored breaking change of this property to a
+// scratch copy of the repository and re-runs the property's rules on it (one process per
+// mutant).  Breaking changes must be reported, behaviour-preserving ones must not.  The
+// outcome is recorded in the evidence; it does not change the verdict on /repo itself.
+func runMutantsImpl(c *Ctx, verif, repo string, extra map[string]any) {
+	type job struct {
+		patch string
+		kind  string
+	}
+	var jobs []job
+	add := func(glob, kind string) {
+		ms, _ := filepath.Glob(glob)
+		sort.Strings(ms)
+		for _, m := range ms {
+			jobs = append(jobs, job{m, kind})
+		}
+	}
+	add(filepath.Join(verif, "mutants", c.Property, "*.diff"), "breaking")
+	add(filepath.Join(verif, "mutants", c.Property, "equivalent", "*.diff"), "equivalent")
+	add(filepath.Join(verif, "benign", "*.diff"), "equivalent")
+	// seeded changes written by independent sub-agents: meta.json names the property
+	seeded, _ := filepath.Glob(filepath.Join(verif, "seeded", "*", "meta.json"))
+	sort.Strings(seeded)
+	for _, m := range seeded {
+		data, err := os.ReadFile(m)
+		if err != nil {
+			continue
+		}
+		var meta struct {
+			Property string `json:"property"`
+			AlsoRun  []string `json:"also_detected_by"`
+		}
+		if json.Unmarshal(data, &meta) != nil {
+			continue
+		}
+		if meta.Property == c.Property {
+			jobs = append(jobs, job{filepath.Join(filepath.Dir(m), "patch.diff"), "breaking"})
+		}
+	}
+	if len(jobs) == 0 {
+		return
+	}
+	self, err := os.Executable()
+	if err != nil {
+		c.Note("mutant run skipped: %v", err)
+		return
+	}
+	results := make([]mutantResult, len(jobs))
+	sem := make(chan struct{}, 6)
+	var wg sync.WaitGroup
+	for i, j := range jobs {
+		wg.Add(1)
+		go func(i int, j job) {
+			defer wg.Done()
+			sem <- struct{}{}
+			defer func() { <-sem }()
+			results[i] = runOneMutant(self, verif, repo, c.Property, j.patch, j.kind)
+		}(i, j)
+	}
+	wg.Wait()
+	det, miss, fa, na := 0, 0, 0, 0
+	for _, r := range results {
+		switch r.Result {
+		case "detected":
+			det++
+		case "MISSED":
+			miss++
+		case "FALSE-ALARM":
+			fa++
+		case "not-applicable", "does-not-load":
+			na++
+		}
+	}
+	extra["mutants"] = results
+	extra["mutants_summary"] = fmt.Sprintf("%d breaking changes detected, %d missed, %d false alarms on behaviour-preserving edits, %d not applicable to the current tree", det, miss, fa, na)
+	fmt.Printf("mutants: %s\n", extra["mutants_summary"])
+	for _, r := range results {
+		if r.Result == "MISSED" || r.Result == "FALSE-ALARM" {
+			fmt.Printf("  %s %s\n", r.Result, r.Patch)
+		}
+	}
+}
+
+func runOneMutant(self, verif, repo, prop, patch, kind string) mutantResult {
+	res := mutantResult{Patch: strings.TrimPrefix(patch, verif+"/"), Kind: kind}
+	dir, err := os.MkdirTemp("", "hidimut")
+	if err != nil {
+		res.Result = "not-applicable"
+		return res
+	}
+	defer os.RemoveAll(dir)
+	cp := exec.Command("rsync", "-a", "--exclude", ".git", repo+"/", dir+"/")
+	if out, err := cp.CombinedOutput(); err != nil {
+		res.Result, res.Reported = "not-applicable", string(out)
+		return res
+	}
+	ap := exec.Command("patch", "-p1", "-s", "--no-backup-if-mismatch", "-i", patch)
+	ap.Dir = dir
+	if out, err := ap.CombinedOutput(); err != nil {
+		res.Result, res.Reported = "not-applicable", "patch does not apply to the current tree: "+firstLine(string(out))
+		return res
+	}
+	run := exec.Command(self, "-repo", dir, "-verif", verif, "-property", prop, "-tier", "quick", "-no-evidence")
+	out, err := run.CombinedOutput()
+	text := string(out)
+	code := 0
+	if ee, ok := err.(*exec.ExitError); ok {
+		code = ee.ExitCode()
+	}
+	if strings.Contains(text, "CHECKER FAILURE: load failed") {
+		res.Result, res.Reported = "does-not-load", firstLine(text)
+		return res
+	}
+	var lines []string
+	for _, l := range strings.Split(text, "\n") {
+		if strings.Contains(l, "VIOLATED") || strings.Contains(l, "UNDECIDED") {
+			l = strings.TrimSpace(l)
+			if len(l) > 220 {
+				l = l[:220]
+			}
+			lines = append(lines, l)
+		}
+	}
+	reported := code != 0
+	switch {
+	case kind == "breaking" && reported:
+		res.Result = "detected"
+	case kind == "breaking":
+		res.Result = "MISSED"
+	case reported:
+		res.Result = "FALSE-ALARM"
+	default:
+		res.Result = "silent"
+	}
+	if len(lines) > 3 {
+		lines = lines[:3]
+	}
+	res.Reported = strings.Join(lines, " | ")
+	return res
+}
+
+func firstLine(s string) string {
+	s = strings.TrimSpace(s)
+	if i := strings.Index(s, "\n"); i > 0 {
+		s = s[:i]
+	}
+	if len(s) > 200 {
+		s = s[:200]
+	}
+	return s
+}
